@@ -51,6 +51,11 @@ pub enum Op {
     SaveSpare,
     /// spare.clone_from(&a); drop(a); a = spare   (RestartClone if nothing was kept aside)
     CloneFrom,
+    /// Differential battery only (C17): an insert call with a *stale* id (an earlier generation
+    /// of `slot`, the `ord`-th id issued for it) as receiver (`recv`) or as argument, against live
+    /// node `a`. No property says what must happen; the outcome and the resulting state go into
+    /// the event log that is compared between builds, and the run ends.
+    StaleInsert { kind: Kind, checked: bool, a: Key, slot: u32, ord: u32, recv: bool },
     /// `with_capacity(n)` / `reserve(n)` guarantees on fresh arenas of payload type `ty`
     /// (0 unit, 1 u8, 2 [u8; 4096], 3 [u8; 8192], 4 [u64; 4096], 5 String)
     ObsCapacity { n: u32, ty: u8 },
@@ -102,6 +107,7 @@ impl Op {
             Op::TreeMacro { .. } => "tree_macro",
             Op::RestartClone => "restart_clone",
             Op::SaveSpare => "save_spare",
+            Op::StaleInsert { .. } => "stale_insert",
             Op::CloneFrom => "clone_from",
             Op::ObsCapacity { .. } => "obs_capacity",
             Op::RestartSerde { .. } => "restart_serde",
